@@ -310,7 +310,8 @@ def mk_single(vlen, with_payload, cf=False, chunk=None):
     return make
 
 
-EXT_DELTAS = [10, 18, 22, 268, 269, 270, 400, 65000]      # unassigned numbers (opaque format): the delta equals the number
+EXT_DELTAS = [10, 18, 22, 268, 269, 270, 400, 65000, 65535, 65536, 65804]      # unassigned numbers (opaque format): the delta equals the number
+EXT_SECOND = [0, 14, 1000, 65804]       # delta of a second option (0: none); numbers beyond 65535 are legal on the wire (sum of deltas)
 EXT_LENS = [12, 13, 14, 100, 268, 269, 270, 300]
 
 
@@ -322,18 +323,22 @@ def mk_ext_boundaries(reach):
     from aiocoap.message import Message
     from vf import refcodec
     from aiocoap.optiontypes import OpaqueOption
+    restore0 = _snap()
     for n in EXT_DELTAS:
-        assert OptionNumber(n).format is OpaqueOption and OptionNumber(n + 14).format is OpaqueOption
+        for d2 in EXT_SECOND:
+            assert OptionNumber(n + d2).format is OpaqueOption
+    restore0()
     restore = _snap()
     FILL = bytes((i * 5 + 1) % 256 for i in range(400))
 
-    def h(di: int, li: int, second: bool) -> None:
-        assert 0 <= di < len(EXT_DELTAS) and 0 <= li < len(EXT_LENS)
+    def h(di: int, li: int, si: int) -> None:
+        assert 0 <= di < len(EXT_DELTAS) and 0 <= li < len(EXT_LENS) and 0 <= si < len(EXT_SECOND)
         restore()
         n = pick(EXT_DELTAS, di)
         ln = pick(EXT_LENS, li)
+        d2 = pick(EXT_SECOND, si)
         val = FILL[:ln]                 # value content is covered by the single-option obligations; here the field widths matter
-        opts = [(n, val)] + ([(n + 14, b"zz")] if second else [])
+        opts = [(n, val)] + ([(n + d2, b"zz")] if d2 else [])
         area = refcodec.ref_encode_options(opts) + b"\xffPL"
         o = Options()
         rest = o.decode(area)
@@ -648,7 +653,7 @@ def obligations(tier):
                     concrete={"option header bytes": "computed by the reference encoder for each catalogue number"}))
     obs.append(Obligation("ext-boundaries", mk_ext_boundaries, 280 if q else 900, functions=["options.Options.decode/encode", "options._read/_write_extended_field_value", "message.Message.decode"],
                           symbolic={"option number (delta)": "index over %s" % EXT_DELTAS, "value length": "index over %s" % EXT_LENS,
-                                    "followed by a second option": "bool"}))
+                                    "delta of a second option": "index over %s (0: no second option); the sums reach 131608 > 65535" % EXT_SECOND}))
     # fully symbolic short option areas, split by first byte over the workers
     splits = [(i, i + 16) for i in range(0, 256, 16)]
     obs.append(Obligation("area-total-L1", mk_area_total(1, 0, 256), T, functions=["options.Options.decode/encode"],
